@@ -59,6 +59,25 @@ func (e *Ev) evCall(x *ast.CallExpr) Val {
 		if fn.Pkg() != nil && fn.Pkg().Path() == "fmt" {
 			return e.evFmt(x, fn.Name())
 		}
+		if fn.Pkg() != nil && fn.Pkg().Path() == "sort" && fn.Name() == "Strings" {
+			// in-place sort: afterwards the variable holds a permutation of its elements
+			id, ok := unparen(x.Args[0]).(*ast.Ident)
+			if !ok {
+				e.unsupp(x, "sort.Strings of a non-variable")
+			}
+			obj := e.info.Uses[id]
+			old, ok := e.st.env[obj].(VStrs)
+			if !ok {
+				e.unsupp(x, "sort.Strings of %T", e.st.env[obj])
+			}
+			nw := VStrs{B: e.fx.declare(sortArrArr, "sorted_b"), O: e.fx.declare(sortArr, "sorted_o"), L: e.fx.declare(sortArr, "sorted_l"), N: old.N}
+			e.fx.useSeq = true
+			e.fx.specUsed["sortedof"] = true
+			e.fx.assume(e.st.pc, fmt.Sprintf("(forall ((j Int)) (=> (and (<= 0 j) (< j %s)) (exists ((i Int)) (and (<= 0 i) (< i %s) (= (select %s j) (select %s i)) (= (select %s j) (select %s i)) (= (select %s j) (select %s i))))))", nw.N, old.N, nw.B, old.B, nw.O, old.O, nw.L, old.L))
+			e.fx.trusted["sort.Strings leaves a permutation of the slice (every element afterwards is an element before; assumed); that the result is independent of the input order is NOT derived"] = true
+			e.st.env[obj] = nw
+			return VTuple{}
+		}
 		if fn.Pkg() != nil && fn.Pkg().Path() == "unicode" && fn.Name() == "Is" {
 			tab, ok := e.ev(x.Args[0]).(VRangeTable)
 			if !ok {
@@ -172,6 +191,10 @@ func (e *Ev) evBuiltin(x *ast.CallExpr, name string) Val {
 			return VInt{e.fx.heapMapLen(a)}
 		case VMapLit:
 			return VInt{fmt.Sprintf("%d", len(a.Entries))}
+		case VStrMap:
+			n := e.fx.declare(sortInt, "maplen")
+			e.fx.emit(fmt.Sprintf("(assert (and (<= 0 %s) (< %s %s)))", n, n, maxLen))
+			return VInt{n}
 		case VArrLit:
 			return VInt{fmt.Sprintf("%d", a.Len)}
 		}
